@@ -958,6 +958,10 @@ func (fx *fnExec) execReturn(st *state, x *ssa.Return) {
 	}
 	fx.objInvAtReturn(st, x)
 	fx.nreturns++
+	// vacuity canary: this return point must be reachable under all assumptions made on the way
+	// (a contradictory assumed contract or invariant would make every obligation here hold vacuously)
+	vo := fx.addObl("vacuity", fmt.Sprintf("return#%d", fx.nreturns), fx.allProps(), "false", x.Pos(), "return point reachable (assumptions consistent)")
+	vo.Canary = true
 }
 
 func (fx *fnExec) finishReturns() {
